@@ -134,7 +134,7 @@ def work_store(ctx, item):
             call_and_check(ctx, 'refconverters.convert_references', refconverters.convert_references, (refs[1], fmt), {}, label, check_b=False)
     # retrieval calls: their arguments (element lists, names) stay as they are
     sel = [int(z) for z in list(b['elements'])[:2]]
-    sel_mixed = [sel[0], str(sel[-1])]
+    sel_mixed = [sel[0], '', str(sel[-1]), '']        # empty entries are ignored by the library, not removed from the caller's list
     for site, f, args, kw in (('api.get_basis', bse.get_basis, (name, ), {'elements': sel_mixed, 'version': version, 'uncontract_general': True}),
                               ('api.get_references', bse.get_references, (name, ), {'elements': sel_mixed, 'version': version}),
                               ('api.filter_basis_sets', bse.filter_basis_sets, (), {'elements': sel_mixed, 'family': None})):
